@@ -54,6 +54,7 @@ func vxTraceMutex(p interface{})
 func vxTraceMark(s string)
 func vxRaceLog(on bool)
 func vxRaceAnalyse() int
+func vxRaceAnalyseAll() int
 func vxYield()
 func vxPreemptBudget(n int)
 func vxMapOrder(funcs string)
